@@ -50,7 +50,9 @@ def apply_odata_query(query: ClauseElement, odata_query: str) -> ClauseElement:
             str(required_join) not in existing_joins
             and str(required_join.key) not in existing_joins
         ):
-            query = query.join(required_join)
+            # LEFT OUTER JOIN: a parent without the related row must stay in the
+            # result set for `or`, `not` and `eq null` to see its null value.
+            query = query.join(required_join, isouter=True)
 
     return query.filter(where_clause)
 
